@@ -75,6 +75,7 @@ static int drv_getc(void *arg)
 }
 
 /* ------------------------------------------------------------------ trees */
+static const char *unsound;   /* first broken link seen while printing */
 static void put_tree(const MPT_STRUCT(node) *n, const MPT_STRUCT(node) *parent, int depth);
 static void put_forest(const MPT_STRUCT(node) *first, const MPT_STRUCT(node) *parent, int depth)
 {
@@ -83,8 +84,8 @@ static void put_forest(const MPT_STRUCT(node) *first, const MPT_STRUCT(node) *pa
 	if (depth > 4000) { ob_s("?deep"); return; }
 	for (const MPT_STRUCT(node) *n = first; n; prev = n, n = n->next) {
 		if (prev) ob_s(",");
-		if (n->prev != prev) ob_s("?prev");
-		if (n->parent != parent) ob_s("?parent");
+		if (n->prev != prev) unsound = "prev";
+		if (n->parent != parent) unsound = "parent";
 		put_tree(n, parent, depth);
 	}
 }
@@ -374,8 +375,8 @@ int main(void)
 			printf("R ok | C %s\n", ob);
 		}
 		else if (!strcmp(op, "tree") && drv_nw == 2) {
-			ob_reset(); put_forest(root.children, &root, 0);
-			printf("R ok | C %s\n", ob);
+			ob_reset(); unsound = 0; put_forest(root.children, &root, 0);
+			printf("R ok sound=%s | C %s\n", unsound ? unsound : "ok", ob);
 		}
 		else if (!strcmp(op, "config") && (drv_nw == 2 || drv_nw == 3)) {
 			MPT_STRUCT(parser_context) ctx;
@@ -403,8 +404,8 @@ int main(void)
 			int ret;
 			setup_ctx(&ctx);
 			ret = mpt_parse_node(&root, &ctx, fmt_str);
-			ob_reset(); put_forest(root.children, &root, 0);
-			printf("R %s | C %s", ret < 0 ? "err" : "ok", ob);
+			ob_reset(); unsound = 0; put_forest(root.children, &root, 0);
+			printf("R %s sound=%s | C %s", ret < 0 ? "err" : "ok", unsound ? unsound : "ok", ob);
 			put_internals(ret, &ctx);
 		}
 		else if (!strcmp(op, "end") && drv_nw == 2) {
